@@ -20,7 +20,7 @@ def run(ctx):
     cg = callgraph(P)
     M = PoolModel(P, cg)
     # shared clauses: a client's other rows survive a write (no second uniqueness constraint); every statement is understood
-    ctx.include("C01", rules=("R0", "R7", "R6"))
+    ctx.include("C01", rules=("R0", "R7", "R6", "R3"))
     producers = {fid for fid, sig in P.sigs.items() if _is_lease_result(sig_output(sig)) and fid in P.bodies}
     own_sites = []  # (body, bb, site, where)
     for fid in sorted(producers):
